@@ -47,8 +47,10 @@ InBounds(s) == /\ DOMAIN s.fs \subseteq Paths
                /\ Cardinality({p \in DOMAIN s.fs : s.fs[p].k = "link"}) <= MaxLinks
                /\ Cardinality({p \in DOMAIN s.fs : s.fs[p].k = "dir" /\ s.fs[p].mode # DirMode}) <= MaxOdd
                /\ \A p \in DOMAIN s.fs : Len(s.fs[p].d) <= MaxData /\ s.fs[p].tk # "?"
-\* wildcards of the reference (mode 0) resolved to "keep" (as in MC_Vfs)
-Fix(s) == [s EXCEPT !.fs = [p \in DOMAIN s.fs |-> IF s.fs[p].mode = 0 /\ p \in DOMAIN fs THEN [s.fs[p] EXCEPT !.mode = fs[p].mode] ELSE s.fs[p]]]
+\* wildcards of the reference resolved as in MC_Vfs: mode 0 = keep (or the default for a new parent), owner AnyId = Own
+Fix(s) == [s EXCEPT !.fs = [p \in DOMAIN s.fs |->
+             [s.fs[p] EXCEPT !.mode = IF @ # 0 THEN @ ELSE IF p \in DOMAIN fs THEN fs[p].mode ELSE DirMode,
+                             !.uid = IF @ = AnyId THEN Own.uid ELSE @, !.gid = IF @ = AnyId THEN Own.gid ELSE @]]]
 
 \* an acting macro as a transition: it leaves one of the admissible states and panics as its post-condition demands
 Run(mac) == \E a \in ArgsOf(mac) : \E s0 \in Admissible(mac, st, Own, a).sts : LET s == Fix(s0) IN
@@ -58,14 +60,14 @@ Run(mac) == \E a \in ArgsOf(mac) : \E s0 \in Admissible(mac, st, Own, a).sts : L
                      /\ (pn => ActMayPanic(mac, st, s, Own, a)) /\ (~pn => ActMayPass(mac, st, s, Own, a))
                      /\ last' = [mac |-> mac, a |-> a, pn |-> pn, post |-> Post(mac, st, s, Own, a), ok |-> Act(mac, st, Own, a).res.o]
 
-MkdirP    == Run("mkdir_p")
-MkdirM    == Run("mkdir_m")
-Mkfile    == Run("mkfile")
-WriteAll  == Run("write_all")
-Copyfile  == Run("copyfile")
+MkdirP    == "mkdir_p" \in ActingMacros /\ Run("mkdir_p")
+MkdirM    == "mkdir_m" \in ActingMacros /\ Run("mkdir_m")
+Mkfile    == "mkfile" \in ActingMacros /\ Run("mkfile")
+WriteAll  == "write_all" \in ActingMacros /\ Run("write_all")
+Copyfile  == "copyfile" \in ActingMacros /\ Run("copyfile")
 Symlink   == MaxLinks > 0 /\ Run("symlink")
-Remove    == Run("remove")
-RemoveAll == Run("remove_all")
+Remove    == "remove" \in ActingMacros /\ Run("remove")
+RemoveAll == "remove_all" \in ActingMacros /\ Run("remove_all")
 
 Init == fs = (Root :> NDir(Own)) /\ cwd = Root /\ last = [mac |-> "init", a |-> NoArg, pn |-> FALSE, post |-> "T", ok |-> "ok"]
 Next == MkdirP \/ MkdirM \/ Mkfile \/ WriteAll \/ Copyfile \/ Symlink \/ Remove \/ RemoveAll
@@ -95,7 +97,7 @@ ReadlinkExact == \A p \in Paths :
    /\ (P("is_symlink", A1(p)) = "T") => /\ acc = {fs[p].t}
                                         /\ (fs[p].t # Parent(p) => accr = {RelC(fs[p].t, Parent(p))})
    /\ (P("is_symlink", A1(p)) = "F") => (acc = {} /\ accr = {} /\ \A r \in Rels(p) : P("readlink", AR(p, r, FALSE)) = "F")
-   /\ P("readlink", AR(p, <<"a">>, TRUE)) = "F"
+   /\ (~IsLink(fs, p) \/ fs[p].t # Parent(p)) => P("readlink", AR(p, <<"a">>, TRUE)) = "F"
 \* an argument abs() rejects: every positive assertion panics
 Unresolvable == /\ \A mac \in CheckingMacros \ NegativeMacros : Panics(mac, st, Bad1)
                 /\ \A p \in Paths : Panics("readlink_abs", st, Bad2(p))
@@ -122,14 +124,18 @@ ActLaw(mac, a) ==
       /\ (o.res.o = "ok" /\ Settled(o) /\ Applicable(mac, a)) => post = "T"
       \* operation fails per the reference => nothing changed and the macro panics
       /\ (Failed(o) /\ Settled(o)) => (post = "F" /\ s0 = st)
-      \* never a vacuous pass
-      /\ (post = "T") => Establishes(mac, s, a)
       \* a macro that must not panic is idempotent: running it again passes and changes nothing
       /\ (post = "T" /\ Settled(o)) => LET o2 == Act(mac, s, Own, a) IN
                                           /\ StEq(o2.st, s) /\ o2.alt = {} /\ Post(mac, s, s, Own, a) = "T"
       \* arguments abs() rejects: nothing is done and the macro panics
       /\ (~a.pok \/ (mac \in TwoPathMacros /\ ~a.qok)) => (post = "F" /\ s0 = st)
-ActingLaws == \A mac \in ActingMacros : \A a \in ArgsOf(mac) : ActLaw(mac, a)
+\* never a vacuous pass: whatever state the macro's run might have left - the admissible ones, the unchanged one
+\* ("did nothing"), the result of any OTHER operation on the same arguments ("did something else") - a post-condition
+\* that holds there implies that the matching checking macros pass there
+Candidates(mac, a) == {st} \cup Admissible(mac, st, Own, a).sts \cup {Act(m2, st, Own, a).st : m2 \in ActingMacros}
+NoVacuous(mac, a) == \A s0 \in Candidates(mac, a) : LET s == Fix(s0) IN
+                        (Post(mac, st, s, Own, a) = "T") => Establishes(mac, s, a)
+ActingLaws == \A mac \in ActingMacros : \A a \in ArgsOf(mac) : ActLaw(mac, a) /\ NoVacuous(mac, a)
 
 \* on the transitions actually taken: "a macro that does not panic leaves a state satisfying its post-condition"
 NoVacuousPass == [][(~last'.pn /\ last'.post = "T") => Establishes(last'.mac, [fs |-> fs', cwd |-> cwd'], last'.a)]_vars
